@@ -208,7 +208,63 @@ def gen_conv(tier, rnd, stats):
     return b
 
 
-GENERATORS = {"bv": gen_bv, "it": gen_it, "qb": gen_qb, "conv": gen_conv}
+def gen_pool(tier, rnd, stats):
+    """histories of the two-slot pool machine LibPool (a conversion that keeps its source, then a
+    mutation of one alias), replayed on real values; every live slot is observed at the end"""
+    cfg = "Gen_pool_%s.cfg" % tier
+    behs, states, trans, dt = tlc_behaviours(cfg, "MC_LibPool.tla")
+    cap = 250 if tier == "quick" else 3000
+    replayed = behs if len(behs) <= cap else rnd.sample(behs, cap)
+    stats["mc"].append({"cfg": cfg, "role": "behaviour generator", "states": states, "transitions": trans, "behaviours": len(behs),
+                        "behaviours_replayed": len(replayed), "wall_s": round(dt, 1)})
+    stats["states"] += states
+    stats["transitions"] += trans
+    b = Beh()
+    lens = C.rotate([0, 1, 63, 64, 65, 127, 128, 511, 512, 513, 1030], rnd)
+    final_kind = {"into_bv": "BV", "into_bvm": "BVM", "rs_narrow": "RSN", "rs_narrow_from": "RSN", "rs_wide": "RSW", "rs_wide_from": "RSW",
+                  "da0": "DA0", "da1": "DA1"}
+    for h in replayed:
+        b.reset()
+        n = next(lens)
+        bits = C.rand_seq(rnd, n, [0, 1])
+        slot = {1: [b.newb("BVM", "bools", Seqn.from_values(bits)), list(bits), "BVM"], 2: None}
+        for st in h["steps"]:
+            s = st["s"]
+            o, bs, kind = slot[s]
+            if st["a"] == "mut":
+                r = rnd.random()
+                if r < 0.35 or not bs:
+                    e = {"m": "push", "a": [rnd.choice([0, 1])]}
+                elif r < 0.7:
+                    i = rnd.choice([0, len(bs) - 1, rnd.randrange(len(bs))])
+                    e = {"m": "set", "a": [i, 1 - bs[i]]}      # always a visible change
+                elif r < 0.85:
+                    e = {"m": "extend_with_zeros", "a": [rnd.choice([1, 63, 64, 65])]}
+                else:
+                    e = {"m": "extend_bools", "bits": [rnd.choice([0, 1]) for _ in range(rnd.choice([1, 64, 70]))]}
+                b.mut(o, e["m"], **{k: v for k, v in e.items() if k != "m"})
+                apply_bvm(bs, e)
+            else:
+                m = st["m"]
+                d = b.conv(o, m, keep=st["keep"])
+                slot[3 - s] = [d, list(bs), final_kind.get(m, kind)]
+                if not st["keep"]:
+                    slot[s] = None
+        for s in (1, 2):
+            if slot[s] is None:
+                continue
+            o, bs, kind = slot[s]
+            sq = Seqn.from_values(bs)
+            if kind in ("BV", "BVM"):
+                C.bvm_observe(b, o, bs, rnd, kind=kind, light=True)
+                b.eq(o, b.newb(kind, "bools", sq))
+            else:
+                C.bit_rs_queries(b, o, sq, rnd, rank=kind in ("RSN", "RSW"), select0=True)
+                b.eq(o, b.newb(kind, "new", sq))
+    return b
+
+
+GENERATORS = {"bv": gen_bv, "it": gen_it, "qb": gen_qb, "conv": gen_conv, "pool": gen_pool}
 
 
 def generate(spec, tier, rnd, stats):
